@@ -68,6 +68,11 @@ func (g *Gen) literalFor(typ string) string {
 			g.use("int-default-with-leading-zero")
 			return []string{"0644", "-010", "08", "007"}[g.T.Draw("leading-zero", 4)]
 		}
+		// Two neighbouring integers beyond what a float64 tells apart.
+		if g.T.Chance("int-default-beyond-float-precision", 1, 8) {
+			g.use("int-default-beyond-float-precision")
+			return []string{"9007199254740992", "9007199254740993"}[g.T.Draw("big-int", 2)]
+		}
 		return fmt.Sprint(g.T.Draw("int-default", 100))
 	case "real":
 		// Also the spellings people use for the same numbers: a trailing zero, no leading zero, an exponent.
@@ -580,6 +585,15 @@ func (g *Gen) Edit(s *Sch, maxTables int) string {
 			return ""
 		}
 		c := cs[g.T.Draw("col", len(cs))]
+		// A default beyond float precision usually changes to its neighbour: a change only an
+		// exact comparison sees.
+		if c.Def == "9007199254740992" || c.Def == "9007199254740993" {
+			if g.T.Chance("to-the-neighbouring-integer", 2, 3) {
+				c.Def = map[string]string{"9007199254740992": "9007199254740993", "9007199254740993": "9007199254740992"}[c.Def]
+				g.use("default-changed-to-neighbouring-big-integer")
+				break
+			}
+		}
 		if c.Def != "" && g.T.Chance("remove-default", 1, 3) {
 			c.Def, c.DefExpr = "", false
 		} else {
